@@ -179,7 +179,7 @@ class C06(fw.Property):
                         hi = sum(1 for e in ents if t < e["any"] + 2 * T)
                         lo = sum(1 for e in ents if t < e["ok"] + T)
                         n = o["sizes"][r][col]
-                        if n > hi: return ("C06:state-not-discarded", "event %d: resource %d holds %d %s at t=%d but only %d were used within the last 2*MAX_TRANSMIT_WAIT" % (idx, r, n, name, t, hi))
+                        if n > hi: return ("C06:state-not-discarded", "event %d: resource %d holds %d %s at t=%d but only %d may still be held (used within the last 2*MAX_TRANSMIT_WAIT and not superseded by a complete answer)" % (idx, r, n, name, t, hi))
                         if n < lo: return ("C06:state-lost-early", "event %d: resource %d holds %d %s at t=%d but %d were used within the last MAX_TRANSMIT_WAIT" % (idx, r, n, name, t, lo))
                 continue
             resp, calls = o["resp"], o["calls"]
